@@ -67,7 +67,8 @@ impl Op {
 }
 
 /// Result of one op against the hit oracle.
-pub fn apply(cache: &DiskCache, op: &Op, capacity: u64) -> Result<OpOutcome, String> {
+/// `capacity` = Some(c) additionally asserts C13's bound after a successful put.
+pub fn apply(cache: &DiskCache, op: &Op, capacity: Option<u64>) -> Result<OpOutcome, String> {
     let (k, a, b) = op.range();
     let key = key_of(k);
     let range = ChunkRange { start: a, end: b };
@@ -76,9 +77,11 @@ pub fn apply(cache: &DiskCache, op: &Op, capacity: u64) -> Result<OpOutcome, Str
             let (o, d) = range_data(k, a, b);
             match cache.put(&key, &range, &o, &d) {
                 Ok(()) => {
-                    let tb = cache.total_bytes().map_err(|e| format!("total_bytes: {e}"))?;
-                    if tb > capacity {
-                        return Err(format!("[sig:c13-over-capacity] after a successful put the byte total {tb} exceeds the capacity {capacity}"));
+                    if let Some(capacity) = capacity {
+                        let tb = cache.total_bytes().map_err(|e| format!("total_bytes: {e}"))?;
+                        if tb > capacity {
+                            return Err(format!("[sig:c13-over-capacity] after a successful put the byte total {tb} exceeds the capacity {capacity}"));
+                        }
                     }
                     Ok(OpOutcome::PutOk)
                 },
@@ -243,7 +246,7 @@ pub struct BatchResult {
 /// Run `threads` op lists concurrently under a schedule. `schedule[i]` picks among the parked
 /// threads at decision i (index modulo the number of parked threads); when it runs out the lowest
 /// thread id is chosen. Deterministic given (ops, schedule, eviction seed).
-pub fn run_batch(cache: &DiskCache, capacity: u64, threads: &[Vec<Op>], schedule: &[u8], evict_seed: u64) -> BatchResult {
+pub fn run_batch(cache: &DiskCache, capacity: Option<u64>, threads: &[Vec<Op>], schedule: &[u8], evict_seed: u64) -> BatchResult {
     utils::verif_hooks::set_random_seed(Some(evict_seed));
     let ctrl = Controller::new(threads.len());
     let outcomes: Arc<Mutex<Vec<Vec<OpOutcome>>>> = Arc::new(Mutex::new(vec![Vec::new(); threads.len()]));
